@@ -730,6 +730,7 @@ pub fn replay_bounded(unit: &str) -> Option<i32> {
         "b_c02_components_of_placement" => run_grid(unit, contract_components_of_placement, limit),
         "b_c03_member_tag_classes" => run_grid(unit, contract_member_tag_classes, limit),
         "b_c06_pipeline_defaults" => run_grid(unit, contract_pipeline_integer_defaults, limit),
+        "b_c03_pipeline_tag_matrix" => run_grid(unit, contract_pipeline_tag_matrix, limit),
         "b_c02_parameterized_components" => run_grid(unit, contract_parameterized_components, limit),
         "b_c14_large_numbers" => run_grid(unit, contract_enumerated_large_numbers, limit),
         "b_c02_nested_collections" => run_grid(unit, contract_generate_nested_collections, limit),
@@ -2455,6 +2456,87 @@ pub fn contract_enumerated_large_numbers<C: Ctx>(cx: &mut C) {
     }
     #[cfg(kani)]
     { let _ = cx; }
+}
+
+/// C03 — the property's own configuration space, point by point, through the whole pipeline (`Compiler::compile_to_string`):
+/// module default {EXPLICIT, IMPLICIT, AUTOMATIC, no TAGS clause} x tag keyword {none, IMPLICIT, EXPLICIT} x class
+/// {context, APPLICATION, PRIVATE, UNIVERSAL} x position {type assignment, SEQUENCE / SET component, CHOICE alternative,
+/// component of an anonymous nested type, SEQUENCE OF / SET OF element} x tagged type {primitive, referenced SEQUENCE,
+/// referenced CHOICE, inline CHOICE, open type}.  X.680 §31.2.7: explicit iff EXPLICIT keyword, or no keyword under an
+/// EXPLICIT (or absent) TAGS default, or the tagged type is a CHOICE / open type (for those the rasn runtime wraps
+/// explicitly whatever the annotation says, so both spellings are accepted when the rule does not already demand explicit).
+pub fn contract_pipeline_tag_matrix<C: Ctx>(cx: &mut C) {
+    #[cfg(not(kani))]
+    {
+        let d = cx.choose(4);
+        let k = cx.choose(3);
+        let c = cx.choose(4);
+        let p = cx.choose(7);
+        let t = cx.choose(5);
+        let header = ["EXPLICIT TAGS ", "IMPLICIT TAGS ", "AUTOMATIC TAGS ", ""][d];
+        let kw = ["", "IMPLICIT ", "EXPLICIT "][k];
+        let (class_src, class_out) = [("", "context"), ("APPLICATION ", "application"), ("PRIVATE ", "private"), ("UNIVERSAL ", "universal")][c];
+        let n = [3u32, 17, 5, 30][c];
+        let ty = ["INTEGER", "RefSeq", "RefCh", "CHOICE { x BOOLEAN, y NULL }", "ANY"][t];
+        let tagged = format!("[{class_src}{n}] {kw}{ty}");
+        let body = match p {
+            0 => format!("T ::= {tagged}"),
+            1 => format!("T ::= SEQUENCE {{ f {tagged}, g BOOLEAN }}"),
+            2 => format!("T ::= SET {{ f {tagged}, g BOOLEAN }}"),
+            3 => format!("T ::= CHOICE {{ f {tagged}, g BOOLEAN }}"),
+            4 => format!("T ::= SEQUENCE {{ o SEQUENCE {{ f {tagged}, g BOOLEAN }}, h NULL }}"),
+            5 => format!("T ::= SEQUENCE OF {tagged}"),
+            _ => format!("T ::= SET OF {tagged}"),
+        };
+        let src = format!("M DEFINITIONS {header}::= BEGIN RefSeq ::= SEQUENCE {{ x BOOLEAN }} RefCh ::= CHOICE {{ x BOOLEAN, y NULL }} {body} END");
+        cx.describe(|| format!("DEFINITIONS {header}::= ... {body}"));
+        let out = crate::Compiler::<crate::generator::rasn::Rasn, _>::new().add_asn_literal(&src).compile_to_string();
+        let Ok(res) = out else { vob!(cx, "C03.matrix.compiles", false); return; };
+        let g = &res.generated;
+        // where the tag must show
+        let text: Option<String> = match p {
+            0 => { let cut = g.find(" T ").or_else(|| g.find("struct T")).or_else(|| g.find("enum T")); struct_or_enum_attrs(g, "T").or_else(|| cut.map(|_| String::new())) }
+            1 | 2 | 3 => item_of(g, "T").and_then(|(_, fs)| fs.into_iter().find(|f| f.contains(" f ") || f.contains("f (") || f.contains("pub f "))),
+            4 => item_of(g, "TO").and_then(|(_, fs)| fs.into_iter().find(|f| f.contains("pub f "))),
+            _ => struct_or_enum_attrs(g, "AnonymousT"),
+        };
+        let explicit_form = format!("tag (explicit ({class_out} , {n}))");
+        let implicit_form = format!("tag ({class_out} , {n})");
+        let must_explicit = k == 2 || (k == 0 && (d == 0 || d == 3));
+        let choice_like = t >= 2;
+        let ok = match &text {
+            None => false,
+            Some(a) => if must_explicit { a.contains(&explicit_form) } else if choice_like { a.contains(&explicit_form) || a.contains(&implicit_form) } else { a.contains(&implicit_form) && !a.contains("explicit") },
+        };
+        if d == 3 && k == 0 {
+            vob!(cx, "C03.matrix.no_tags_clause_means_explicit_tags", ok);
+        } else if p >= 5 {
+            vob!(cx, "C03.matrix.collection_element_tag_is_applied_with_class_number_and_mode", ok);
+        } else if p == 0 {
+            vob!(cx, "C03.matrix.type_assignment_tag_is_applied_with_class_number_and_mode", ok);
+        } else {
+            vob!(cx, "C03.matrix.component_tag_is_applied_with_class_number_and_mode", ok);
+        }
+        // automatic tagging: exactly when the module says AUTOMATIC TAGS and no component of that very type is tagged
+        if (1..=4).contains(&p) {
+            let holder = if p == 4 { "TO" } else { "T" };
+            let attrs = struct_or_enum_attrs(g, holder).unwrap_or_default();
+            vob!(cx, "C03.matrix.no_automatic_tags_on_a_type_with_a_tagged_component", !attrs.contains("automatic_tags"));
+            if p == 4 {
+                let outer = struct_or_enum_attrs(g, "T").unwrap_or_default();
+                vob!(cx, "C03.matrix.automatic_tags_iff_module_default_is_automatic", outer.contains("automatic_tags") == (d == 2));
+            }
+        }
+    }
+    #[cfg(kani)]
+    { let _ = cx; }
+}
+/// attributes written before `pub struct <name>` / `pub enum <name>` (back to the previous derive)
+#[cfg(not(kani))]
+fn struct_or_enum_attrs(generated: &str, name: &str) -> Option<String> {
+    let pos = [format!("pub struct {name} "), format!("pub enum {name} ")].iter().filter_map(|h| generated.find(h.as_str())).min()?;
+    let start = generated[..pos].rfind("# [derive").unwrap_or(0);
+    Some(generated[start..pos].to_string())
 }
 
 /// C02 / C06 — DEFAULT of an INTEGER component, whole pipeline: the default function returns the type of the field, and its
